@@ -85,6 +85,21 @@ CHECKS = {
         note=TB + "Modelled, not verified: libstdc++ std::regex is an oracle in the theorems; its agreement with the verified matcher is tested on the "
              "generated fragment only; dlopen; catastrophic backtracking time. Axioms: none.",
         technique="Coq proof of first-match selection for any matcher + verified derivative regex matcher; differential vs the real device manager over driver-presence subsets"),
+    "C13": dict(
+        family="props", design="6.13",
+        text="Machine-checked proof over a heap model (allocation ids with size, content, live/freed status; a free of a non-live id is an error "
+             "event) and a statement-by-statement model of storage.c's init/set_uri/set_external_metadata/set_access_key_and_secret/"
+             "set_dimension/set_enable_multiscale/copy/destroy: for every number of objects and every well-formed history of any length "
+             "(induction): after copy every field of the destination equals the source's (strings by content, dimensions element-wise) "
+             "(C13_copy_equal), the source is bit-identical afterwards (C13_src_untouched), no allocation is reachable through two different "
+             "pointers, across objects or inside one (C13_separation), no free of a non-live id and nothing live after destroying every object "
+             "(C13_free_once), every stored string is NULL or owned with 1 <= nbytes <= size and a terminating NUL (C13_terminated). Tied to "
+             "the code on every run by compiling the real storage.c with the allocator renamed to logging wrappers under ASan/LSan and comparing, "
+             "after every operation of thousands of generated histories over several objects, all fields, pointer identity classes, the allocator "
+             "event log and the sanitizer verdict with the extracted model; an independent aliasing/equality/leak oracle in the harness.",
+        note=TB + "Modelled, not verified: malloc/realloc succeed and hand out fresh blocks; self-copy and callers writing struct fields directly are "
+             "outside the history grammar; dimension count < 256. Axioms: none.",
+        technique="Coq proof by induction over histories of an allocation-id heap model of storage.c; differential vs the real storage.c with a logging allocator under ASan/LSan"),
     "C15": dict(
         family="tiff", design="6.15",
         text="Machine-checked proof over an executable byte-level model of tiff.cpp and side-by-side-tiff.cpp (header, 336-byte IFDs, strips, "
